@@ -1148,19 +1148,23 @@ package iavl
 //@   modifies *
 
 // ---------------------------------------------------------------- the index build decision (C07)
+// forced exactly when the label has the form <format>-<version> and that version's decimal text is not the latest version's
 //@ func (*nodeDB).shouldForceFastStorageUpgrade(ndb) (force, err)
-//@   assumed label parsing (strings.Split / strconv.Itoa) is outside the translated subset: forceflag names its answer
-//@   ensures forceflag == force
-//@   ensures err != nil ==> !force
-//@   modifies forceflag, ndb.latestVersion, ndb.legacyLatestVersion, nodeDB.mtx[*]
+//@   props C07  nosafety
+//@   requires ndb != nil && ndb.db != nil
+//@   let lo = ord(ndb.storageVersion)
+//@   let ll = len(ndb.storageVersion)
+//@   ensures [stale-label-forces] err == nil && old(ndb.latestVersion) > 0 ==> force == labelstale(lo, ll, ord("-"), old(ndb.latestVersion))
+//@   ensures [error-means-no] err != nil ==> !force
+//@   modifies ndb.latestVersion, ndb.legacyLatestVersion, nodeDB.mtx[*]
 
 // the index is (re)built exactly when it is wanted at all and either was never built or is labelled with another version
 //@ func (*MutableTree).IsUpgradeable(tree) (ok, err)
 //@   props C07
-//@   requires tree != nil && tree.ndb != nil
-//@   ensures [decision] err == nil ==> ok == (!tree.skipFastStorageUpgrade && (!(ord(tree.ndb.storageVersion) >= ord("1.1.0")) || forceflag))
+//@   requires tree != nil && tree.ndb != nil && tree.ndb.db != nil
+//@   ensures [decision] err == nil && old(tree.ndb.latestVersion) > 0 ==> ok == (!tree.skipFastStorageUpgrade && (!(ord(tree.ndb.storageVersion) >= ord("1.1.0")) || labelstale(ord(tree.ndb.storageVersion), len(tree.ndb.storageVersion), ord("-"), old(tree.ndb.latestVersion))))
 //@   ensures [error-means-no] err != nil ==> !ok
-//@   modifies forceflag, nodeDB.latestVersion[*], nodeDB.legacyLatestVersion[*], nodeDB.mtx[*]
+//@   modifies nodeDB.latestVersion[*], nodeDB.legacyLatestVersion[*], nodeDB.mtx[*]
 
 // the index build: every pair of the WORKING tree is written, stamped with that tree's version, and the
 // label that says which version the index describes is that same version
